@@ -49,7 +49,7 @@ Qed.
 Lemma mstep_hooks_only now s o s' msgs :
   mstep d now s o = Ok (s', msgs) -> match o with MCreate _ => True | _ => m_epoch s' = m_epoch s /\ msgs = [] end.
 Proof.
-  destruct o; cbn; auto; intro H; ib H u1 H1; ib H u2 H2; inversion H; subst; auto.
+  destruct o; cbn; auto; intro H; ib H u1 H1; try (ib H u2 H2); inversion H; subst; auto.
 Qed.
 
 (* chain: consecutive ids, starts exactly one duration apart, never created before their start,
@@ -96,7 +96,8 @@ Qed.
 
 Lemma mstep_nodup now s o s' msgs : NoDup (m_hooks s) -> mstep d now s o = Ok (s', msgs) -> NoDup (m_hooks s').
 Proof.
-  intros N H. destruct o as [bad|admin h|admin h]; cbn [mstep] in H.
+  intros N H. destruct o as [bad|admin h|admin h|admin g]; cbn [mstep] in H.
+  4:{ ib H u1 H1. inversion H; subst. exact N. }
   - apply mcreate_ok in H as (_ & _ & _ & -> & _). auto.
   - ib H u1 H1. ib H u2 H2. apply ensure_ok in H2. apply negb_true_iff in H2.
     inversion H; subst; cbn. apply NoDup_snoc; auto.
@@ -113,12 +114,13 @@ Proof.
   induction h as [|[now o] r IH]; intros s N; cbn [mcreated]; [exact I|].
   destruct (mstep d now s o) as [[s' msgs]| |] eqn:E; auto.
   pose proof (mstep_nodup _ _ _ _ _ N E) as N'.
-  destruct o as [bad|admin x|admin x].
+  destruct o as [bad|admin x|admin x|admin x].
   - cbn [mstep] in E. apply mcreate_ok in E as (A & B & C & Hh & M & _).
     cbn [mchain]. repeat split; try lia.
     + subst msgs. rewrite map_fst_const. auto.
     + subst msgs. apply Forall_forall. intros m Im. apply in_map_iff in Im as [y [<- _]]. reflexivity.
     + rewrite <- A, <- B. apply IH; auto.
+  - apply mstep_hooks_only in E as [Ee _]. rewrite <- Ee. apply IH; auto.
   - apply mstep_hooks_only in E as [Ee _]. rewrite <- Ee. apply IH; auto.
   - apply mstep_hooks_only in E as [Ee _]. rewrite <- Ee. apply IH; auto.
 Qed.
@@ -186,9 +188,10 @@ Lemma mstep_offset d now s o s' msgs :
   0 <= e_start (m_epoch s') < P64 /\ ((e_id (m_epoch s') = e_id (m_epoch s) /\ e_start (m_epoch s') = e_start (m_epoch s)) \/
    (e_id (m_epoch s') = e_id (m_epoch s) + 1 /\ e_start (m_epoch s') = e_start (m_epoch s) + d)).
 Proof.
-  intros E F. destruct o as [bad|a x|a x].
+  intros E F. destruct o as [bad|a x|a x|a x].
   - cbn [mstep] in E. pose proof (mcreate_start_fits _ _ _ _ _ _ E) as F'.
     apply mcreate_ok in E as (A & B & _). split; auto.
+  - apply mstep_hooks_only in E as [-> _]. split; auto.
   - apply mstep_hooks_only in E as [-> _]. split; auto.
   - apply mstep_hooks_only in E as [-> _]. split; auto.
 Qed.
@@ -237,7 +240,7 @@ Proof.
     rewrite Hs; clear Hs. fold (mrun d).
     destruct (mstep d now0 s0 o) as [[s' ms]| |] eqn:E; try (eapply IH; eauto; fail).
     destruct (mstep_offset _ _ _ _ _ _ E F) as [F' _].
-    destruct o as [bad|a x|a x]; try (eapply IH; eauto; fail).
+    destruct o as [bad|a x|a x|a x]; try (eapply IH; eauto; fail).
     destruct k as [|k]; [|cbn [nth_error] in H; eapply IH; eauto].
     cbn [nth_error] in H. inversion H; subst; clear H.
     destruct (mrun_offset d r s' F') as (n & N & I & S & FF).
